@@ -11,6 +11,7 @@ use serde_json::{json, Value};
 fn one(run: u64, stream: u64) -> Value {
     let mut rng = rng(stream);
     let mut sim: Sim<Frame> = Sim::new(stream);
+    sim.trace_sample(run, 25, 80_000);
     let n = 2 + (run % 2) as usize;
     let cfg = base_config(Mode::Switch);
     for _ in 0..n {
@@ -96,5 +97,6 @@ pub fn run(tier: &str, out_path: &str) -> Value {
         t.ev(r.clone());
     }
     let events = t.finish();
-    json!({"runs": runs, "steps": runs, "events": events})
+    let cloud = write_cloud_blocks(&format!("{}.cloud", out_path));
+    json!({"runs": runs, "steps": runs, "events": events, "cloud_events": cloud})
 }
